@@ -493,6 +493,8 @@ def gen_scenario(root, profile=None):
     if r2.chance(p["p_shuffle_keys"]) and p["world"] != "sim":
         script["shuffle_keys"] = True  # the script lists the entries of a report in varying order
     script["level_noise"] = r2.choice([0.4, 0.4, 0.15, 0.05])
+    if kind == "moasha" and sched.get("priority") == "nondominated" and r2.chance(0.35):
+        sched["max_num_samples"] = r2.randint(1, 6)  # only the top k of the non-dominated sort get distinct priorities
     if kind == "pbt" and r2.chance(p["p_early_finish_pbt"]) and max_t >= 3:
         # population-based training on scripts some of which end on their own before the maximum resource: such a
         # trial completes without the scheduler having stopped it and stays in the population
@@ -683,6 +685,8 @@ def build_scheduler(scen):
 
         pr = {"nondominated": NonDominatedPriority, "linear": LinearScalarizationPriority,
               "fixed": FixedObjectivePriority}[s["priority"]]()
+        if s.get("max_num_samples") is not None:
+            pr = NonDominatedPriority(max_num_samples=s["max_num_samples"])
         sched = MOASHA(space, metrics=list(scen["metrics"]), mode=s["modes"], time_attr=RESOURCE_ATTR,
                        multiobjective_priority=pr, max_t=s["max_t"], grace_period=s["grace_period"],
                        reduction_factor=s["reduction_factor"], brackets=s["brackets"])
